@@ -36,6 +36,7 @@ THEOREMS = [
     # images under a step: critical points are the fixed points; settings carried over
     'C20.stepRow_euler_fixed_iff', 'C20.stepRow_rk_fixed_of_critical', 'C20.iterateRows_critical',
     'C20.climbRow_euler_fixed_is_critical', 'C20.icoordPlain_length', 'C20.withCoord_fields',
+    'C20.relaxPhase_steps_le', 'C20.relaxPhase_eq_iterate', 'C20.relaxPhase_steps_eq_phaseSteps',
     # central_difference on arrays of points, default time step / tolerance
     'C20.cdArray_length', 'C20.cdArray_getElem', 'C20.cdPoint_components_cubic',
     'C20.defaultTimestep_pos', 'C20.defaultTimestep_le', 'C20.defaultTolerance_pos',
@@ -547,7 +548,8 @@ class Runner:
                     kw['climbindex'] = op['climb']
                 q = p.step(**kw)
             else:
-                q = p.relax(relaxsteps=op['r'], climbsteps=op['c'], timestep=op['h'], tolerance=0.0, verbose=False)
+                q = p.relax(relaxsteps=op['r'], climbsteps=op['c'], timestep=op['h'], tolerance=op.get('tol', 0.0),
+                            verbose=False)
             res = {'coord': np.array(q.coord, dtype=float), 'type': type(q).__name__,
                    'same_energyfxn': q.energyfxn is p.energyfxn, 'same_gradientfxn': q.gradientfxn is p.gradientfxn,
                    'same_integratorfxn': q.integratorfxn is p.integratorfxn,
@@ -569,7 +571,7 @@ class Runner:
 def _gen_sequence(rng, nops, tier_big=False):
     """a construction followed by `nops` operations (each followed by a full read of the object)."""
     dim = rng.choice([1, 2, 2, 2, 3, 3, 4])
-    n = rng.choice([1, 2, 2, 2, 3, 3, 4, 5, 6])
+    n = rng.choice([1, 2, 2, 2, 2, 3, 3, 4, 5, 6])
     poly = _gen_poly(rng, dim, tame=True)
     g = rng.choice(['cd', 'cd', 'an'])
 
@@ -620,7 +622,7 @@ def _gen_sequence(rng, nops, tier_big=False):
             ops.append({'op': rng.choice(['energy_at', 'grad_at']), 'pts': pts})
         elif r < 0.83:
             ops.append({'op': 'defaults'})
-        elif r < 0.95:
+        elif r < 0.92:
             climb = None
             if n >= 3 and rng.random() < 0.5:
                 k = rng.randrange(1, n - 1)
@@ -629,6 +631,7 @@ def _gen_sequence(rng, nops, tier_big=False):
                         'adopt': rng.random() < 0.5})
         else:
             ops.append({'op': 'relax', 'r': rng.randint(0, 2), 'c': rng.randint(0, 1), 'hrel': rng.choice([0.25, 0.125]),
+                        'tolrel': rng.choice([0.0, 0.5, 0.9, 1.5, 4.0]),
                         'adopt': rng.random() < 0.5})
         ops.append({'op': 'obs'})
     return ops
@@ -648,6 +651,12 @@ def _resolve(op, sh):
         op = dict(op)
         h = op['hrel'] * _stable_step(sh)
         op['h'] = 2.0 ** math.floor(math.log2(h)) if op['hrel'] != 0.3 else float(f'{h:.2g}')
+        if op['op'] == 'relax' and 'tol' not in op:
+            op['tol'] = 0.0
+            if op.get('tolrel') and sh.n == 2:
+                g0 = max(math.sqrt(sum(_fl(v) ** 2 for v in sh.grad_exact(r)[0])) for r in sh.coord)
+                if 0 < g0 < 1e6:
+                    op['tol'] = float(f'{op["tolrel"] * g0:.3g}')
     if op.get('how') == 'perturb':
         op = dict(op)
         i, j = op['i'] % sh.n, op['j']
@@ -730,6 +739,20 @@ class OracleModel:
                 x = sh.integrate_exact(x, h)[0]
             out.append(x)
         return out
+
+    def relax2(self, idx, sh, h, tol, r, c):
+        """relax of a two-image path with a tolerance: (rows, displacement measures of both phases)."""
+        rows = [[Fraction(v) for v in x] for x in sh.coord]
+        ds = []
+        for nmax in (r, c):
+            for _ in range(nmax):
+                new = [sh.integrate_exact(x, h)[0] for x in rows]
+                d = max(math.sqrt(_fl(sum((b - a) ** 2 for a, b in zip(x, y)))) for x, y in zip(rows, new)) / h
+                rows = new
+                ds.append(d)
+                if d < tol:
+                    break
+        return rows, ds
 
     def adopt(self, idx_old, idx_new, sh_new):
         pass
@@ -827,6 +850,16 @@ class LeanModel:
         d = sh.poly.dim
         self._last_new = None
         return [flat[:d], flat[d:]]
+
+    def relax2(self, idx, sh, h, tol, r, c):
+        out = self.d.ask(f'prelax {self.map[idx]} {cm.fr(h)} {cm.fr(tol)} {r} {c}')
+        if out.startswith('err:'):
+            return ('raise',)
+        rows, d1, d2 = out.split(';')
+        flat = cm.unfrs(rows)
+        d = sh.poly.dim
+        self._last_new = None
+        return [flat[:d], flat[d:]], [_fl(v) for v in cm.unfrs(d1) + cm.unfrs(d2)]
 
     def adopt(self, idx_old, idx_new, sh_new):
         """register the object returned by step/relax: same functions and settings, the implementation's coordinates."""
@@ -972,7 +1005,7 @@ def _brief(op):
     if k == 'step':
         return f"step(h={op['h']}, climb={op.get('climb')}{', adopt' if op.get('adopt') else ''})"
     if k == 'relax':
-        return f"relax({op['r']},{op['c']},h={op['h']}{', adopt' if op.get('adopt') else ''})"
+        return f"relax({op['r']},{op['c']},h={op['h']},tol={op.get('tol', 0.0)}{', adopt' if op.get('adopt') else ''})"
     return k
 
 
@@ -1118,7 +1151,21 @@ def _check_step(ctx, report, model, model_kind, runner, idx, before, op, res, ra
         bits = max(Fraction(v).denominator.bit_length() + 4 for r in (before.coord[0], before.coord[-1]) for v in r) \
             + (17 if before.g == 'cd' and before.kw is None else 12)
         exact_ok = bits * (16 if before.integ == 'rk' else 2) ** nsteps <= 40000
-        want = model.ends(idx, before, op['h'], nsteps) if nsteps and (exact_ok or before.n < 2) else None
+        if op.get('tol', 0.0) > 0 and before.n == 2 and nsteps and exact_ok:
+            # the loop of relax with its convergence test: stops after the first step whose displacement measure is below
+            # the tolerance (in each phase); a measure within 1e-7 of the tolerance decides nothing
+            rows2, ds = model.relax2(idx, before, op['h'], op['tol'], op['r'], op['c'])
+            if any(abs(d - op['tol']) <= 1e-7 * op['tol'] for d in ds):
+                ctx.stats.case(f'{model_kind}:path-relax-near-tie', repr(op), nontrivial=False)
+                want = None
+            else:
+                want = rows2
+                nsteps = len(ds)
+                ctx.stats.case(f'{model_kind}:path-relax-tolerance', (repr(before.spec()), repr(op)),
+                               sample={'op': 'relax', 'state': before.spec(), 'args': {k: v for k, v in op.items() if k != 'op'},
+                                       'displacements': ds})
+        else:
+            want = model.ends(idx, before, op['h'], nsteps) if nsteps and (exact_ok or before.n < 2) else None
     if kind == 'relax' and nsteps == 0:
         if raised or res['coord'].shape != (before.n, d) or not np.array_equal(res['coord'], now):
             report('path:relax0', f'relax with no steps did not return the unchanged path: {res}')
@@ -1193,6 +1240,8 @@ def _check_step(ctx, report, model, model_kind, runner, idx, before, op, res, ra
                     tol = tol * (1 + hl) ** (4 if before.integ == 'rk' else 1) + t + 1e3 * EPS * scale_all
                 except OverflowError:
                     tol = float('inf')
+            if not tol < 1e-3 * (1 + max(abs(_fl(v)) for v in x)):
+                continue
             if _differs(_flat(new[i]), row, tol) is not None:
                 report('path:relax:end-row', f'{_brief(op)} from coord {before.coord} ({before.integ}, gradient {before.g}, settings '
                        f'{before.kw}): end image {i} is {new[i].tolist()}, {nsteps} integrator steps of that image give '
